@@ -243,6 +243,9 @@ def run(loader, R, tier):
     # ---------------------------------------------------------------- R3.4
     complementary_probe(prog, R)
 
+    # ---------------------------------------------------------------- R3.6
+    factory_class_pairing(prog, R)
+
     # ---------------------------------------------------------------- R3.2
     from selib.visitors import Visitors
     R.rule("R3.2", "every raw Add::dict_add_term receives a coefficient-free "
@@ -422,6 +425,57 @@ def add_key_typestate(prog, R, V):
                     "canonical" % (short(f["qn"]), txt[:40]))
         _sym.visit_guarded(f["body"], cb)
     R.floor("Add::dict_add_term call sites", nsites, 20)
+
+
+def factory_class_pairing(prog, R):
+    """R3.6: a free factory f for the function class F (f named like F)
+    that hands its *own* parameters, unchanged and in order, to make_rcp of a
+    sibling function class X != F builds the wrong function: the unevaluated
+    fall-back of uppergamma() constructed a LowerGamma."""
+    R.rule("R3.6", "a function factory's unevaluated fall-back constructs "
+                   "the factory's own class")
+
+    def norm(x):
+        return x.replace("_", "").lower()
+    classes = {norm(short(c)): c for c in prog.classes
+               if c.startswith("SymEngine::") and c.count("::") == 1}
+    nfb = 0
+    for u, f in sorted(prog.functions.items(), key=lambda kv: kv[1]["qn"]):
+        if f.get("cls") or not f.get("body") or f.get("dependent") \
+                or not f["qn"].startswith("SymEngine::") \
+                or f["qn"].count("::") != 1:
+            continue
+        F = classes.get(norm(f["n"]))
+        if F is None or not prog.derives(F, "SymEngine::Function"):
+            continue
+        ps = [p_["n"] for p_ in f.get("params", ())]
+        for c in walk(f["body"]):
+            if not (c.get("k") == "call" and c.get("n") == "make_rcp"
+                    and c.get("ta")):
+                continue
+            X = strip_type(c["ta"][0])
+            args = []
+            for a in c.get("a", ()):
+                while a.get("k") in ("cast", "ctor") and len(
+                        [y for y in a.get("a", ())
+                         if y.get("k") != "defarg"]) == 1:
+                    a = [y for y in a["a"] if y.get("k") != "defarg"][0]
+                args.append(a.get("n") if a.get("k") == "ref"
+                            and a.get("d") == "param" else None)
+            if args != ps or not ps:
+                continue            # not the unevaluated fall-back
+            nfb += 1
+            key = f["n"]
+            R.instance("R3.6", "%s@%s" % (key, c.get("l")), sample={
+                "factory": f["n"], "constructs": short(X)})
+            if X != F and prog.derives(X, "SymEngine::Function"):
+                R.violation(
+                    "R3.6", key, prog.loc(f, c.get("l")),
+                    "%s() hands its own arguments to make_rcp<const %s>: "
+                    "the unevaluated result is an object of another "
+                    "function (%s(...) is not %s(...))" % (
+                        f["n"], short(X), f["n"], norm(short(X))))
+    R.floor("unevaluated fall-backs of function factories", nfb, 40)
 
 
 def complementary_probe(prog, R, rid="R3.4"):
